@@ -222,8 +222,16 @@ pub fn record(args: &Args) {
 	let mut rng = Rng::new(seed() ^ 0xca909);
 	let mut lines = vec![];
 	let mut numbers = 0usize;
-	for i in 0..n {
-		let v = if i % 3 == 0 { num(&numgen::canon_number(&mut rng, heavy)) } else { ijson_value(&mut rng, 1 + i % 3, heavy) };
+	let hard = numgen::hard_numbers(heavy);
+	for i in 0..n + hard.len() {
+		let v = if i < hard.len() {
+			// inside an object, so that the rewriting (C10) respells it too
+			if i % 2 == 0 { num(&hard[i]) } else { Value::Array(vec![num(&hard[i])]) }
+		} else if i % 3 == 0 {
+			num(&numgen::canon_number(&mut rng, heavy))
+		} else {
+			ijson_value(&mut rng, 1 + i % 3, heavy)
+		};
 		let mut sps = vec![];
 		numbers_of(&v, &mut sps);
 		let certs: Vec<J> = sps.iter().filter_map(|s| certificate(s)).collect();
